@@ -37,7 +37,7 @@ class C05(Check):
     id = 'C05'
     module = 'Xrl.Props.C05'
     namespace = 'Xrl.C05'
-    extra_modules = [('Xrl.Props.C05b', 'Xrl.C05'), ('Xrl.Props.C05c', 'Xrl.C05')]
+    extra_modules = [('Xrl.Props.C05b', 'Xrl.C05'), ('Xrl.Props.C05c', 'Xrl.C05'), ('Xrl.Props.C05d', 'Xrl.C05')]
     functions = sorted(set(list(ID_ZE) + list(ID_ZET) + list(ID_ZETP) + list(ID_ZXE) + ['CS_Photo', 'CS_Rayl', 'CS_Compt', 'DCS_Rayl', 'DCS_Compt', 'DCSP_Rayl', 'DCSP_Compt']))
     assumptions = ['theorems assume vecOkB of the cross-section / form-factor / scattering-function tables (executed on the dumped tables by C02\'s check)',
                    'the differential and Kissel-total theorems carry hW: wherever a form-factor, scattering-function or Kissel table exists the element has an atomic weight '
@@ -233,6 +233,32 @@ class C05(Check):
                     tk = None if (pcm is None or r_ in (None, 'bad', 0.0) or c_ in (None, 'bad', 0.0)) else (pcm + r_) + c_
                     judge('CS_Total_Kissel', tk, 'CS_Total_Kissel = CS_Photo_Total + CS_Rayl + CS_Compt')
                     judge('CSb_Total_Kissel', None if tk is None else tk * aw / AVOGNUM, 'CSb_Total_Kissel = CS_Total_Kissel x A / N_A')
+            # the strict specification of Props/C05d.lean (Spec.CSb_Photo_Total_strict: fails as soon as an ionisable sub-shell is undefined
+            # at E; Spec.photoUndefined lists those sub-shells) evaluated on the same regenerated tables: its list must be the one computed
+            # above from the public functions, and the library may differ from it only at the known site (a value where the list is non-empty)
+            nstrict = 0
+            try:
+                pts = list(dict.fromkeys((Z, E) for Z, E, _ in kplan))
+                so = ctx.run_model([x for Z, E in pts for x in ('spec.photoUndefined %d %s' % (Z, hx(E)), 'spec.CSb_Photo_Total_strict %d %s' % (Z, hx(E)))], dump='dump' + suf)
+                und_py = {}
+                for Z, E, occ in kplan:
+                    und_py[(Z, E)] = [sh for sh, o_ in occ if sh < 28 and 0 < pv['EdgeEnergy %d %d' % (Z, sh)] <= E and kv('CSb_Photo_Partial %d %d %s E' % (Z, sh, hx(E))) is None]
+                for i, (Z, E) in enumerate(pts):
+                    ul = [int(x) for x in so[2 * i][len('list ['):-1].split(', ') if x.strip()]; se = so[2 * i + 1]; nstrict += 1
+                    line = 'CSb_Photo_Total %d %s E' % (Z, hx(E))
+                    if sorted(ul) != sorted(und_py[(Z, E)]):
+                        viol.append(dict(key=line + '  @real', got='Spec.photoUndefined = %s' % ul, expected='%s (sub-shells at or above their edge whose CSb_Photo_Partial fails, from the public functions)' % und_py[(Z, E)],
+                                         what='specification of "a part is undefined" and the library\'s own partial cross sections disagree'))
+                        continue
+                    co_ = ka[line]
+                    if not core.expect_agrees(co_, se, rel=1e-12, stats=stats):
+                        g_ = kv(line)
+                        site = bool(ul) and se == 'fails' and g_ not in (None, 'bad', 0.0)
+                        if not site:
+                            viol.append(dict(key=line + '  @real', got=co_, expected=se, what='Kissel photo total: library vs the strict specification (Spec.CSb_Photo_Total_strict)'))
+            except core.BuildError:
+                pass
+            stats['kissel_strict_spec_cases'] = nstrict
         except core.BuildError as ex:
             viol.append(dict(key='regenerated-Kissel configuration', got=str(ex)[:300], expected='builds', what='data/kissel -> kissel_pe.dat -> prdata'))
         stats['kissel_identity_cases'] = kn
